@@ -13,7 +13,7 @@ TEXT = {
  'C07': 'Err ==> *final(self) == *old(self) is a postcondition of every fallible method, for all inputs.',
  'C08': 'supports == README envelope formula as a spec function, proved for all usize pairs; Kani cross-checks the arithmetic loop-free.',
  'C09': 'DefaultRate* invariants carry the tag fixed by rule_high; its enc_spec / dec_spec are the dedicated codecs\' specs under that rule.',
- 'C10': 'lib::encode / lib::decode proved equal to the fold of the streaming contracts in call order (errors exact). Collection tails are assumed helpers, covered by a bounded differential.',
+ 'C10': 'lib::encode / lib::decode proved equal to the fold of the streaming contracts in call order (errors exact). The collection tails are verified too: the HashMap fill of decode as the unfolded for-loop over the verified RestoredOriginal::next, map(to_vec).collect() of encode as written, over a checked prophetic model of Recovery and the vstd specs of map / collect.',
  'C11': 'Decoder bookkeeping is over sets of indexes; dec_spec reads received positions only (lemma), hence order-free; the decoding theorems hold for every sufficient received set, so surplus shards cannot change the result; given originals are never exposed (accessor contracts).',
  'C12': 'Accessors, iterators and Drop against the work-space view, for all indexes.',
  'C13': 'Additivity, zero and scalar multiples (homogeneity: right-multiplications of the shift-xor field commute) of enc_high_ref / enc_low_ref proved by induction over layers and chunks, on top of the proved encode == enc_*_ref; every engine kernel is proved to be xor / multiplication by a data-independent constant.',
